@@ -9,7 +9,11 @@
   expression trees; NaN/Inf scan at the identity and the zero vector;
 * multi_node: the same oracle for graphs in which several nodes of one Function (or of a sibling Function) with different
   operands are alive at once, for forward calls made between a forward and its backward, for batched / broadcast /
-  non-contiguous operands mixing special and generic items, and for float32."""
+  non-contiguous operands mixing special and generic items, and for float32;
+* special_values: every Function at operands with one or two components EXACTLY special (scale 1 / sigma 0, zero rotation with
+  generic translation and scale, zero translation, coordinate-axis rotation, half turn, zero point) and the rest generic -
+  the regimes on which rxso3_Ws, so3_Jl, calcQ and Log switch formulas - against extrapolated finite differences, tolerance 5e-7
+  plus the documented sim3 truncation bound."""
 import math
 from ..common import *
 from ..lie import *
@@ -19,7 +23,9 @@ RULE = ('per Function: (group, op, operands, cotangent) -> input cotangents; exa
         'non-trivial = operands not identity/zero; distinct by value; composite programs: random well-typed trees over '
         '{Exp, Log, Inv, @, Act, Act4, Adj, AdjT, Retr, matrix} of depth <= 6 over two group and two algebra leaves checked against left-perturbation finite differences; '
         'per (group, Function): several nodes alive at once (sum / interleaved forward and backward calls / nested / shared operand), batches mixing identity, tiny and '
-        'generic items in several memory layouts, broadcast operand, float32 - against finite differences of the single-element program')
+        'generic items and one item with exactly special components in several memory layouts, broadcast operand, float32 - against finite differences of the single-element program; '
+        'per (group, Function, operand): each exactly special component value (scale 1, zero rotation, zero translation, axis rotation, half turn, zero point; singly and in pairs) '
+        'with generic other components against extrapolated finite differences (tolerance 5e-7 + documented sim3 truncation bound)')
 
 OPC = {'Mul': 0, 'Inv': 1, 'Act': 2, 'Act4': 3, 'Adj': 4, 'AdjT': 5}
 
@@ -138,7 +144,7 @@ def impl_grads(pp, torch, fn, inputs, cot):
     return [[float(v) for v in (g.reshape(-1).tolist() if g is not None else [0.0] * x.numel())] for g, x in zip(gs, ins)]
 
 
-def compare_fd(pp, torch, fn, inputs, cot, tol=2e-5):
+def compare_fd(pp, torch, fn, inputs, cot, tol=2e-5, fd=None):
     """returns description of disagreement between autograd and left-perturbation finite differences"""
     try:
         ig = impl_grads(pp, torch, fn, inputs, cot)
@@ -166,7 +172,7 @@ def compare_fd(pp, torch, fn, inputs, cot, tol=2e-5):
                 return 'input %d: autograd returns no gradient (None) when it is the only input requiring grad, but %s when all inputs require grad' % (k, [round(z, 6) for z in ig[k]])
             if gk is not None and any(abs(u - v) > 1e-12 * max(1.0, abs(v)) for u, v in zip(gk, ig[k])):
                 return 'input %d: gradient %s when it is the only input requiring grad differs from %s when all inputs require grad' % (k, [round(z, 6) for z in gk], [round(z, 6) for z in ig[k]])
-    fg = fd_grads(pp, torch, fn, inputs, cot)
+    fg = (fd or fd_grads)(pp, torch, fn, inputs, cot)
     for k, (a, b) in enumerate(zip(ig, fg)):
         scale = max(1.0, max(abs(v) for v in b + a))
         for j, (u, v) in enumerate(zip(a, b)):
@@ -285,6 +291,12 @@ def generic_inputs(pp, torch, rng, g, op, point='generic'):
     dt = torch.float64
     small = (g == 'Sim3' and op in SERIES_OPS)       # truncated sim3 series: stay where |ad xi|^6 is small
     def G():
+        if point == 'special':
+            # one or two components exactly special (scale 1, zero rotation, zero translation, axis, half turn), rest generic
+            kind = rng.choice(special_kinds(g, 'G', op) + [()])
+            if small:
+                kind = tuple(k for k in kind if k != 'w0')
+            return pp.LieTensor(torch.tensor(special_grp(pp, torch, rng, g, kind, small), dtype=dt), ltype=getattr(pp, g + '_type'))
         if small and point == 'generic':
             a = [0.2 * rng.uniform(-1, 1) for _ in range(ADIM[g])]
             return pp.LieTensor(torch.tensor(a, dtype=dt), ltype=alg_type(pp, g)).Exp()
@@ -296,6 +308,9 @@ def generic_inputs(pp, torch, rng, g, op, point='generic'):
             return pp.LieTensor(torch.tensor(a, dtype=dt), ltype=alg_type(pp, g)).Exp()
         return pp.LieTensor(torch.tensor(x, dtype=dt), ltype=getattr(pp, g + '_type'))
     def A(scale=0.7):
+        if point == 'special':
+            kind = rng.choice(special_kinds(g, 'A', op))
+            return pp.LieTensor(torch.tensor(special_alg(pp, torch, rng, g, kind, 0.2 if small else scale), dtype=dt), ltype=alg_type(pp, g))
         if point == 'identity':
             return pp.LieTensor(torch.zeros(ADIM[g], dtype=dt), ltype=alg_type(pp, g))
         s = 1e-9 if point == 'tiny' else (0.2 if small else scale)
@@ -330,6 +345,187 @@ def fd_single(pp, torch, rng, g, op, point):
         return dict(kind='fd-single', g=g, op=op, point=point, inputs=[[float(v) for v in (x.tensor() if isinstance(x, pp.LieTensor) else x).tolist()] for x in ins],
                     cot=[float(v) for v in cot.tolist()], what='%s %s at a %s point: %s' % (g, op, point, why))
     return None
+
+
+# ------------------------------------------------------------------------------------------------
+# exact special values of ONE (or two) component(s) of an operand combined with generic other components: scale exactly 1
+# (sigma == 0), rotation exactly the identity (phi == 0) with generic translation / scale, translation exactly 0, rotation
+# about a coordinate axis (two quaternion components exactly 0), exact half turn (w == 0), zero point / zero homogeneous
+# coordinate - for every Function whose Jacobian is judged.  The code under test switches coefficient formulas on exactly
+# these values (rxso3_Ws: four regimes of (sigma, theta); so3_Jl / calcQ / Log: theta <= eps), and random generic points never
+# visit them.  Oracle: Richardson-extrapolated central differences (h = 1e-3 and 2e-3, error O(h^4)) of the left-perturbed
+# real forward program - far enough from the special value that the closed-form coefficients beside the regime boundary
+# are evaluated without cancellation (h = 1e-6 next to theta == 0 with a generic translation is off by 2e-5) - with a tight
+# tolerance (5e-7); for the truncated sim3 series the documented bound
+# |cotangent| |ad xi|^6 / 5040 e^|ad xi| (spectral norm) is added.
+G_ATOMS = {'SO3': ['axis', 'w0'], 'SE3': ['r0', 't0', 'axis', 'w0'], 'RxSO3': ['s1', 'r0', 'axis', 'w0'], 'Sim3': ['s1', 'r0', 't0', 'axis', 'w0']}
+A_ATOMS = {'SO3': ['axis'], 'SE3': ['phi0', 'tau0', 'axis'], 'RxSO3': ['sig0', 'phi0', 'axis'], 'Sim3': ['sig0', 'phi0', 'tau0', 'axis']}
+G2A = {'s1': 'sig0', 'r0': 'phi0', 't0': 'tau0', 'axis': 'axis'}
+PARTS = {'SO3': 1, 'SE3': 2, 'RxSO3': 2, 'Sim3': 3}
+
+
+def special_kinds(g, what, op=None):
+    """tuples of atoms: every single special value, every pair of special parts that is not the whole identity / zero
+    element, and scale exactly 1 with the other rotation specials"""
+    atoms = (G_ATOMS if what == 'G' else A_ATOMS)[g]
+    if what == 'G' and op in ('Log', 'Jinvp'):
+        atoms = [a for a in atoms if a != 'w0']              # Log is not differentiable at the half turn
+    if what == 'G' and op == 'Jinvp':
+        atoms = [a for a in atoms if a != 'r0']              # the property speaks about Jinvp away from the zero rotation
+    part = [a for a in atoms if a in ('s1', 'r0', 't0', 'sig0', 'phi0', 'tau0')]
+    kinds = [(a,) for a in atoms]
+    kinds += [(a, b) for i, a in enumerate(part) for b in part[i + 1:] if PARTS[g] > 2]
+    kinds += [(part[0], a) for a in atoms if a in ('axis', 'w0') and part and part[0] in ('s1', 'sig0')]
+    return kinds
+
+
+def special_alg(pp, torch, rng, g, atoms, scale):
+    d = direction(rng)
+    if 'axis' in atoms:
+        k = rng.randrange(3)
+        d = [rng.choice([-1.0, 1.0]) if i == k else 0.0 for i in range(3)]
+    mag = rng.uniform(0.3, 1.0) * scale * 1.7
+    phi = [0.0] * 3 if 'phi0' in atoms else [mag * v for v in d]
+    tau = [0.0] * 3 if 'tau0' in atoms else [rng.uniform(-1, 1) * scale for _ in range(3)]
+    sg = [0.0] if 'sig0' in atoms else [rng.choice([-1, 1]) * rng.uniform(0.2, 1.0) * scale]
+    return {'SO3': phi, 'SE3': tau + phi, 'RxSO3': phi + sg, 'Sim3': tau + phi + sg}[g]
+
+
+def special_grp(pp, torch, rng, g, atoms, small):
+    if small:
+        # stay where the truncated sim3 series are accurate: Exp of a small algebra element, special parts made exact
+        a = special_alg(pp, torch, rng, g, [G2A[k] for k in atoms], 0.2)
+        t, q, s = split_elt(g, [float(v) for v in alg(pp, torch, g, a, rg=False).Exp().tensor().tolist()])
+    else:
+        ang = rng.uniform(0.2, 2.6)
+        u = direction(rng)
+        if 'axis' in atoms:
+            k = rng.randrange(3)
+            u = [rng.choice([-1.0, 1.0]) if i == k else 0.0 for i in range(3)]
+        q = [math.sin(ang / 2) * v for v in u] + [math.cos(ang / 2)]
+        if 'w0' in atoms:
+            q = list(u) + [0.0]
+        t, s = [rng.uniform(-3, 3) for _ in range(3)], math.exp(rng.uniform(-1, 1))
+    if 's1' in atoms:
+        s = 1.0
+    if 'r0' in atoms:
+        q = [0.0, 0.0, 0.0, 1.0]
+    if 't0' in atoms:
+        t = [0.0, 0.0, 0.0]
+    return join_elt(g, t, q, s)
+
+
+def special_point(rng, n, kind):
+    p = [rng.uniform(-2, 2) for _ in range(n)]
+    if kind == 'p0':
+        p = [0.0] * n
+    elif kind == 'pz':
+        p[rng.randrange(3)] = 0.0
+    elif kind == 'w0':
+        p[3] = 0.0
+    elif kind == 'w1':
+        p[3] = 1.0
+    elif kind == 'xyz0':
+        p[:3] = [0.0] * 3
+    return p
+
+
+OPERANDS = {'Mul': 'GG', 'Inv': 'G', 'Act': 'GP', 'Act4': 'GQ', 'Adj': 'GA', 'AdjT': 'GA', 'Exp': 'A', 'Log': 'G', 'Retr': 'GA', 'matrix': 'G', 'Jinvp': 'GA'}
+
+
+def ad_norm(g, x):
+    """spectral norm of ad(x) for a sim3 / se3 / rxso3 / so3 vector (floats)"""
+    import numpy as np
+    A = mp_ad(g, x)
+    return float(np.linalg.norm(np.array([[float(A[i, j]) for j in range(A.cols)] for i in range(A.rows)]), 2)) * (1 + 1e-12)
+
+
+def fd_rich(pp, torch, fn, inputs, cot, h=1e-3):
+    a, b = fd_grads(pp, torch, fn, inputs, cot, h=h), fd_grads(pp, torch, fn, inputs, cot, h=2 * h)
+    return [[(4.0 * u - v) / 3.0 for u, v in zip(x, y)] for x, y in zip(a, b)]
+
+
+def special_tol(pp, torch, g, op, ins, cot, base):
+    if g != 'Sim3' or op not in SERIES_OPS:
+        return base
+    na, amax = 0.0, 0.0
+    for x, w in zip(ins, OPERANDS[op]):
+        if w == 'A':
+            amax = max(amax, float(x.tensor().norm()))
+        if (w == 'A' and op in ('Exp', 'Retr')) or (w == 'G' and op in ('Log', 'Jinvp')):
+            v = x.tensor() if w == 'A' else x.Log().tensor()
+            na = max(na, ad_norm(g, [float(z) for z in v.tolist()]))
+    return base + 4.0 * float(cot.norm()) * (1.0 + amax) * na ** 6 / 5040.0 * math.exp(na)
+
+
+def special_eval(pp, torch, c):
+    g, op = c['g'], c['op']
+    ins = [dec(pp, torch, g, e) for e in c['ins']]
+    cot = torch.tensor(c['cot'], dtype=torch.float64)
+    tol = special_tol(pp, torch, g, op, ins, cot, c.get('tol', 5e-7))
+    # one central difference with h = 1e-4 first (error ~1e-9 on these operands); a disagreement is reported only if the
+    # extrapolated differences (error ~1e-11) confirm it
+    why = compare_fd(pp, torch, single_op_fn(pp, op), ins, cot, tol=tol, fd=lambda *a: fd_grads(*a, h=1e-4))
+    return why and compare_fd(pp, torch, single_op_fn(pp, op), ins, cot, tol=tol, fd=fd_rich)
+
+
+def special_values(ctx, pp, torch):
+    rng = ctx.rng
+    known_ops = {tuple(k.split(':')[1:3]) for k in ctx.known if k.startswith('grad-wrong:')}
+    dt = torch.float64
+    for g in GROUPS:
+        for op in ALL_OPS:
+            if (g, op) in known_ops:
+                continue
+            sig = OPERANDS[op]
+            smallG = g == 'Sim3' and op in ('Log', 'Jinvp')
+            smallA = g == 'Sim3' and op in ('Exp', 'Retr')
+            opts = []
+            for w in sig:
+                if w == 'G':
+                    opts.append(special_kinds(g, 'G', op) if not smallG else [k for k in special_kinds(g, 'G', op) if 'w0' not in k])
+                elif w == 'A':
+                    opts.append(special_kinds(g, 'A', op))
+                else:
+                    opts.append([('p0',), ('pz',)] + ([('w0',), ('w1',), ('xyz0',)] if w == 'Q' else []))
+            combos = []
+            for k, ks in enumerate(opts):
+                for kind in ks:
+                    combos.append([kind if i == k else () for i in range(len(sig))])
+            if len(sig) == 2:
+                for _ in range(ctx.scale(2, 12)):
+                    combos.append([rng.choice(opts[0]), rng.choice(opts[1])])
+            for rep in range(ctx.scale(1, 4)):
+                for kinds in combos:
+                    ins = []
+                    for w, kind in zip(sig, kinds):
+                        if w == 'G':
+                            if kind:
+                                v = special_grp(pp, torch, rng, g, kind, smallG)
+                            else:
+                                v = generic_inputs(pp, torch, rng, g, op, 'generic')[0].tensor().tolist()
+                            ins.append(grp(pp, torch, g, v, rg=False))
+                        elif w == 'A':
+                            ins.append(alg(pp, torch, g, special_alg(pp, torch, rng, g, kind, 0.2 if smallA else 0.7), rg=False))
+                        else:
+                            n = 3 if w == 'P' else 4
+                            ins.append(torch.tensor(special_point(rng, n, kind[0] if kind else ''), dtype=dt))
+                    if op in ('Log', 'Jinvp') and near_pi(pp, torch, ins):
+                        continue
+                    name = '/'.join('+'.join(k) or 'generic' for k in kinds)
+                    c = dict(kind='special', g=g, op=op, special=name, ins=[enc(pp, x) for x in ins], cot=[rng.uniform(-1, 1) for _ in range(out_cot_dim(g, op))])
+                    ctx.case(('special', g, op, name, rep, rng.random()), branch='special-%s-%s' % (g, name))
+                    try:
+                        why = special_eval(pp, torch, c)
+                    except Exception as e:
+                        why = 'the case could not be evaluated: %r' % (e,)
+                    if why:
+                        ctx.violation('grad-wrong:%s:%s' % (g, op), '%s %s with exact special components (%s; operands %s): %s' % (
+                            g, op, name, [e['v'] for e in c['ins']], why), c)
+                        break
+                else:
+                    continue
+                break
 
 
 # ------------------------------------------------------------------------------------------------
@@ -552,8 +748,12 @@ def multi_eval(pp, torch, c):
     except Exception as e:
         return 'autograd raised %r' % (e,)
     exp_first = None
+    tols = []
     for b in range(B):
-        fg = fd_grads(pp, torch, f1, items[b], cots[0][b])
+        if 'h' in c:          # accurate differences: only the documented truncation bound of the item's own operands is allowed
+            tol = special_tol(pp, torch, g, ops[0], items[b], cots[0][b], c.get('tol', 2e-5))
+        tols.append(tol)
+        fg = fd_grads(pp, torch, f1, items[b], cots[0][b], h=c.get('h', 1e-6))
         got = []
         for k, (g_, x) in enumerate(zip(gs, a)):
             if g_ is None:
@@ -569,7 +769,7 @@ def multi_eval(pp, torch, c):
         if why:
             return why
     if exp_first is not None:
-        return diff_grads([[float(v) for v in gs[0].tolist()]], [exp_first], tol, ['shared (broadcast) input 0, sum over the batch'])
+        return diff_grads([[float(v) for v in gs[0].tolist()]], [exp_first], sum(tols) if 'h' in c else tol, ['shared (broadcast) input 0, sum over the batch'])
     return None
 
 
@@ -602,8 +802,8 @@ def multi_node(ctx, pp, torch):
                         pts = ['generic' if p == 'identity' else p for p in pts]
                     c = dict(kind='multi', g=g, scen=scen, ops=ops, points=pts)
                     if scen in ('batched', 'broadcast'):
-                        B = 4
-                        bp = ['identity', 'tiny', 'generic', 'generic']
+                        B = 5
+                        bp = ['identity', 'tiny', 'generic', 'generic', 'special']
                         rng.shuffle(bp)
                         if op == 'Jinvp':
                             bp = ['generic' if p == 'identity' else p for p in bp]
@@ -615,7 +815,7 @@ def multi_node(ctx, pp, torch):
                                 continue
                             col = torch.stack([(it[k].tensor() if isinstance(it[k], pp.LieTensor) else it[k]) for it in its])
                             st.append(pp.LieTensor(col, ltype=its[0][k].ltype) if isinstance(its[0][k], pp.LieTensor) else col)
-                        c.update(points=bp, ins=[enc(pp, x) for x in st], layout=rng.choice(['contiguous', 'transposed', 'strided'] + (['expanded'] if scen == 'broadcast' else [])),
+                        c.update(points=bp, h=1e-4, ins=[enc(pp, x) for x in st], layout=rng.choice(['contiguous', 'transposed', 'strided'] + (['expanded'] if scen == 'broadcast' else [])),
                                  cots=[[[rng.uniform(-1, 1) for _ in range(out_cot_dim(g, op))] for _ in range(B)]])
                     elif scen == 'float32':
                         pt = rng.choice(['generic', 'generic', 'identity'] if op != 'Jinvp' else ['generic'])
@@ -641,7 +841,7 @@ SCEN_TEXT = {'sum': 'two nodes with different operands in one graph, one backwar
              'interleaved': 'two graphs alive, further forward calls before the backward calls',
              'nested': 'the Function applied to its own result',
              'shared1': 'one group element used by two nodes', 'shared2': 'one second operand used by two nodes',
-             'batched': 'one batched call mixing identity / tiny / generic items, judged item by item',
+             'batched': 'one batched call mixing identity / tiny / generic items and one item with exactly special components (scale 1, zero rotation, zero translation, axis, half turn), judged item by item',
              'broadcast': 'single first operand against a batch of second operands',
              'float32': 'the call in float32 against float64 finite differences, tolerance 2e-3'}
 
@@ -697,6 +897,10 @@ def run(ctx):
                     rot = [mag * a for a in d]
                     tr = [rng.uniform(-2, 2) for _ in range(3)]      # translation generic also when the rotation is zero / tiny
                     sg = [rng.uniform(-1, 1)]
+                    if t % 6 == 5:
+                        sg = [0.0]                  # scale exactly 1 with a generic rotation / translation
+                    if t % 7 == 6:
+                        tr = [0.0, 0.0, 0.0]
                     x = {'SO3': rot, 'SE3': tr + rot, 'RxSO3': rot + sg, 'Sim3': tr + rot + sg}[g]
                     X = alg(pp, torch, g, x)
                     saved = x
@@ -712,6 +916,10 @@ def run(ctx):
                             tt, qq, ss = split_elt(g, generic_elt(rng, g, torch, dt))
                             t0, q0, s0 = split_elt(g, xg)
                             xg = join_elt(g, tt, q0, ss)
+                    if t % 6 == 5 or t % 7 == 6:
+                        # scale exactly 1 / translation exactly 0 with the other components as they are
+                        t0, q0, s0 = split_elt(g, xg)
+                        xg = join_elt(g, [0.0, 0.0, 0.0] if t % 7 == 6 else t0, q0, 1.0 if t % 6 == 5 else s0)
                     X = grp(pp, torch, g, xg)
                     x = xg
                     outT = X.Log().tensor()
@@ -820,6 +1028,9 @@ def run(ctx):
                 break
     # ---------------------------------------------------------------- composite programs and finiteness scan (implementation level)
     composite(ctx, pp, torch)
+    # ---------------------------------------------------------------- exact special values of one component of an operand
+    # (scale 1, zero rotation, zero translation, coordinate axis, half turn, zero point) with generic other components
+    special_values(ctx, pp, torch)
     # ---------------------------------------------------------------- several nodes of one Function alive at once, forward
     # calls between forward and backward, batches mixing special and generic items, broadcast / non-contiguous operands
     multi_node(ctx, pp, torch)
@@ -931,6 +1142,8 @@ def replay(ctx, c):
         return compare_fd(pp, torch, single_op_fn(pp, op), new, torch.tensor(c['cot'], dtype=torch.float64))
     if c.get('kind') == 'multi':
         return multi_eval(pp, torch, c)
+    if c.get('kind') == 'special':
+        return special_eval(pp, torch, c)
     if c.get('kind') == 'tree':
         if 'pick' not in c:
             return 're-run the check: tree replays are regenerated from the seed'
